@@ -227,7 +227,7 @@ func checkRange(r *rep.Reporter, kind, via string, size int64, full []byte, h st
 func runC11(c *Ctx) {
 	r := c.R
 	maxSize := r.Pick(12, 64)
-	r.SetRule(fmt.Sprintf("object sizes 0..%d exhaustively x first,last,suffix in -1..size+2 in all three forms, boundary values around 2^31/2^63/2^64, whitespace, signs, multiple ranges, other units, plus a 70001-byte object with boundary and random ranges; on the directory-backed filesystem backends also files the server did not write (dropped into its directory before it starts, or rewritten behind its back) whose very first access is a ranged GET; every backend, HTTP GET and Go Backend.GetObject; distinct = (backend, via, size, header)", maxSize))
+	r.SetRule(fmt.Sprintf("object sizes 0..%d exhaustively x first,last,suffix in -1..size+2 in all three forms, boundary values around 2^31/2^63/2^64, whitespace, signs, multiple ranges, other units, plus a 70001-byte object with boundary and random ranges; on the directory-backed filesystem backends also files the server did not write (dropped into its directory before it starts, or rewritten behind its back) whose very first access is a ranged GET; on the memory backend also current and noncurrent versions read by ?versionId; every backend, HTTP GET and Go Backend.GetObject; distinct = (backend, via, size, header)", maxSize))
 	r.Exhaustive(true)
 	r.Set("exhaustive_scope", fmt.Sprintf("sizes 0..%d x {first-last, first-, -suffix} with values -1..size+2 on 6 backends via HTTP and Go API", maxSize))
 	kinds := drv.AllKinds
@@ -373,7 +373,7 @@ func runC11(c *Ctx) {
 	// exist under their directory (the single-bucket backend exists for exactly that), and
 	// compute size/ETag on first access. A ranged GET as the very first access to such a
 	// file, or to a file rewritten behind the server's back, must still return the range.
-	for _, kind := range []string{drv.FsDir, drv.SingleDir} {
+	for _, kind := range []string{drv.FsDir, drv.SingleDir, drv.SingleDirMemMeta} {
 		dir, err := os.MkdirTemp(drv.WorkRoot(), "c11-adopted-")
 		if err != nil {
 			if err = os.MkdirAll(drv.WorkRoot(), 0755); err == nil {
@@ -439,6 +439,50 @@ func runC11(c *Ctx) {
 		s.Close()
 		os.RemoveAll(dir)
 	}
+	// a range applies to the version the request names: noncurrent and current versions by id
+	{
+		s := mustServer(drv.Opts{Kind: drv.Mem})
+		s.CreateBucket("rng-versions")
+		setVersioning(s, "rng-versions", "Enabled")
+		rng := gen.Rng(r.Seed, "C11-versions", 0)
+		for _, size := range []int{0, 1, 5, maxSize} {
+			old := gen.Body(rng, size, gen.PatRandom, uint32(7000+size))
+			cur := gen.Body(rng, size+3, gen.PatRandom, uint32(7100+size))
+			key := fmt.Sprintf("ver/size-%d", size)
+			p1 := s.Put("rng-versions", key, old, nil)
+			p2 := s.Put("rng-versions", key, cur, nil)
+			v1, v2 := p1.Header.Get("x-amz-version-id"), p2.Header.Get("x-amz-version-id")
+			if p1.Status != 200 || p2.Status != 200 || v1 == "" || v2 == "" {
+				r.Violation(sig("C11", "mem", "setup-put-failed", "versioned"), fmt.Sprintf("versioned PUTs: %s / %s", p1, p2), nil)
+				continue
+			}
+			for _, tc := range []struct {
+				ver  string
+				full []byte
+			}{{v1, old}, {v2, cur}} {
+				n := len(tc.full)
+				hs := []string{"", "bytes=0-", "bytes=-1", fmt.Sprintf("bytes=%d-", n), fmt.Sprintf("bytes=%d-%d", n, n+2), fmt.Sprintf("bytes=-%d", n+1), "bytes=-0",
+					fmt.Sprintf("bytes=%d-", n+1), "bytes=1-0", "bytes=a-b", fmt.Sprintf("bytes=0-%d", n+5), "bytes=0-0", "bytes=1-1", fmt.Sprintf("bytes=-%d", n), "bytes=0-9223372036854775807"}
+				for f := 0; f <= n+1 && f < 8; f++ {
+					for l := f; l <= n+1 && l < 8; l++ {
+						hs = append(hs, fmt.Sprintf("bytes=%d-%d", f, l))
+					}
+				}
+				for _, h := range hs {
+					q := &drv.Req{Method: "GET", Path: drv.ObjPath("rng-versions", key), Query: drv.Q("versionId", tc.ver)}
+					if h != "" {
+						q.Header = drv.H("Range", h)
+					}
+					resp := s.Do(q)
+					r.Count("ranged_reads_by_version_id", 1)
+					checkRange(r, drv.Mem, "http-version-id", int64(n), tc.full, h, rangeObs{status: resp.Status, code: resp.ErrCode(), body: resp.Body,
+						clen: resp.Header.Get("Content-Length"), crange: resp.Header.Get("Content-Range"), panicV: resp.Panic})
+				}
+			}
+		}
+		s.Close()
+	}
+	r.Require("ranged_reads_by_version_id", 100)
 	r.Require("first_access_to_adopted_file", 50)
 	r.Sample(map[string]interface{}{"size": 5, "range": "bytes=1-9", "oracle": "bytes 1-4/5"})
 	r.Sample(map[string]interface{}{"size": 5, "range": "bytes=-7", "oracle": "416 InvalidRange"})
